@@ -26,7 +26,7 @@ BUDGET_S = {'quick': 150, 'thorough': 1500}
 
 SPECIAL_TOKS = ["it's", 'say "hi"', 'a\\b', 'tab\there', 'ünï', '東京', "'", '"', '\\', '//', '`', '{', '#x', '->', ' sp ']
 SPECIAL_PATS = [(' lead', [' lead']), ('a/b', ['a/b']), (r'\d+', ['12']), ('[\'"]', ["'", '"']), (r'x\/y', ['x/y']), ('(?i)ab', ['AB', 'ab']), (r'\w+\s', ['ab ']),
-                ('[^/]+/', ['q/']), ('"q"', ['"q"']), ('a/"b', ['a/"b']), ('[/"\']x', ['/x', '"x', "'x"]), ('', ['']), ("y/'", ["y/'"]), (r'\\', ['\\']), ('[a-c]+?', ['a']),
+                ('[^/]+/', ['q/']), ('"q"', ['"q"']), ('a/"b', ['a/"b']), ('[\\\\/]', ['/', '\\']), ('a\\\\/b', ['a\\/b']), ('[/"\']x', ['/x', '"x', "'x"]), ('', ['']), ("y/'", ["y/'"]), (r'\\', ['\\']), ('[a-c]+?', ['a']),
                 # multi-line (verbose) patterns: the first line follows the opening slash, the others are indented
                 ('(?x)\n    [a-c]      # first\n    [a-c0-9]*  # rest\n    ', ['a1', 'abc']), ('(?x)\n  a+\n      b*\n', ['ab', 'a']), ('(?x) a\n   b', ['ab'])]
 CONSTS = ['7', 'k', "'s'", '2.5', 'a b', 'x{}y', "it's", 'None', 'True', 'two\nlines', 'a b\n  c d\ne', "' x '", '\n  x\n   y\n']
@@ -139,6 +139,10 @@ def decorate(rnd, rules):
         if k == 'const' and r < 0.7:
             sensitive[0] = True
             return ('const', rnd.choice(CONSTS))
+        if k == 'join' and e[3] and r < 0.3 and e[1][0] in ('tok', 'pat'):
+            # the left-/right-associative joins (deprecated syntax, own node classes)
+            sensitive[0] = True
+            return ('join', sub(e[1]), sub(e[2]), True, rnd.choice(['left', 'right']))
         if k in ('void', 'empty', 'dot') and r < 0.5:
             sensitive[0] = True
             c = rnd.random()
@@ -187,6 +191,11 @@ def decorate(rnd, rules):
     keywords = []
     if rnd.random() < 0.3:
         keywords = rnd.sample(['if', 'then', 'a', "it's", 'x y', 'END'], rnd.randint(1, 3))
+        if rnd.random() < 0.4:
+            # a list long enough to be printed over several @@keyword lines, with words that hold blanks and hyphens
+            more = ['not in', 'end-if', 'is not', 'group by', 'order-by', 'else if', 'x - y', 'a-b-c d', "don't care", 'while', 'return', 'begin', 'until', 'otherwise']
+            keywords = keywords + rnd.sample(more, rnd.randint(5, len(more)))
+            rnd.shuffle(keywords)
     return rd, directives, keywords, sensitive[0]
 
 
